@@ -189,7 +189,7 @@ def run(ctx: vlib.Ctx):
     # (resource rule of the shared machine: at most 6 concurrent workers / coqc also in the thorough tier; budgets sized for that:
     #  two thorough runs with 2600 / 1300 grammar schemas were killed by the machine-wide OOM killer in round 6)
     n_grammar = ctx.budget(120, 500)
-    n_ident = ctx.budget(40, 120)
+    n_ident = ctx.budget(48, 140)
     jobs = 4 if ctx.quick() else 6
     res_g, skip_g = run_family(ctx, "grammar", n_grammar, ctx.budget(24, 40), jobs, ctx.budget(10, 25), 8.0)
     res_i, skip_i = run_family(ctx, "identity", n_ident, ctx.budget(12, 20), jobs, ctx.budget(10, 20), 8.0)
